@@ -295,6 +295,22 @@ def analyzeFn (kind : ReceiverKind) (opts : Opts) (sig : Sig) (tg : TraitGeneric
     | .error site => .error (.inr site)
     | .ok s => .ok ({ deps := deps, attrs := [], sig := s, originallyAsync := sig.async_ }, tg')
 
+/-- `attr.path().is_ident("cfg")` -/
+def Attr.isCfgAttr (a : Attr) : Bool :=
+  match a.inner with
+  | .ident "cfg" :: .punct ':' :: _ => false
+  | .ident "cfg" :: _ => true
+  | _ => false
+
+/-- `TraitFn::with_cfg_attrs_of`: the `cfg` attributes of a function of a module / impl block are mirrored on
+    the generated trait method and on the delegating method -/
+def TraitFn.withCfgOf (tf : TraitFn) (fnAttrs : List Attr) : TraitFn :=
+  { tf with attrs := fnAttrs.filter Attr.isCfgAttr }
+
+def attachCfg : List (List Attr) → List TraitFn → List TraitFn
+  | as :: ass, tf :: tfs => tf.withCfgOf as :: attachCfg ass tfs
+  | _, tfs => tfs
+
 /-- analysis of all functions of a module / impl block, sharing one generics analyzer -/
 def analyzeFns (kind : ReceiverKind) (opts : Opts) : List Sig → TraitGenerics →
     Except (PErr ⊕ String) (List TraitFn × TraitGenerics)
